@@ -447,8 +447,8 @@ std::string
 gen_c16h()
 {
 	std::ostringstream t;
-	int mode = *pbt::welem<int>({{4, 0}, {2, 1}, {1, 2}});
-	t << "cfg " << *pbt::range<int>(1, 1000000) << " " << mode << " " << *gen::element(10, 30, 60) << " " << *pbt::range<int>(0, 3) << " 600 0\n";
+	int mode = *pbt::welem<int>({{4, 0}, {2, 1}, {1, 2}, {1, 3}});
+	t << "cfg " << *pbt::range<int>(1, 1000000) << " " << mode << " " << (mode == 3 ? *gen::element(5, 20, 50) : *gen::element(10, 30, 60)) << " " << *pbt::range<int>(0, 3) << " " << (mode == 3 ? *gen::element(60, 150, 400) : 600) << " 0\n";
 	int world = *pbt::range<int>(0, 1);
 	t << "world " << world << "\n";
 	if (*pbt::welem<int>({{1, 0}, {5, 1}})) {
